@@ -23,8 +23,12 @@ Decided:
         locally (h2_conn.reset_stream / end_stream) while nothing on its call chain removes from that attribute; with such a witness the
         attribute is an independent table variable (sizes 0..4) - phantom entries then either hold queued streams back for ever or
         overrun the limit - without one the coupling is undecided (exit 2); a gated event is appended to
-        stream_queue[its original stream id] and nothing else happens; resume takes the FIRST queued stream
-        (pop(next(iter(queue)))) and replays its events in order, each once; provisional_max_concurrency is only
+        stream_queue[its original stream id] and nothing else happens - the list appended to is named by its VALUE: `queue[k]`,
+        `queue.setdefault(k, [])` (directly, through a local or inside an inlined helper), `queue[k] += [e]`; creating the empty entry first
+        (`queue[k] = []`, setdefault) belongs to the append, an empty entry left for a stream that is not gated is a violation, and so is
+        `queue[k].append` on a queue created as a plain dict without the entry being there; resume takes the FIRST queued stream
+        (pop(next(iter(queue))) | key = next(iter(queue / queue.keys())) / list(queue)[0] then pop(key) or read + `del queue[key]` |
+        key, events = next(iter(queue.items())) + del) and replays its events in order, each once; provisional_max_concurrency is only
         cleared (to None) when RemoteSettingsChanged was received.
   R05.3 HttpLayer.event_to_child routing table: ReceiveHttp -> self.streams[command.event.stream_id] with
         command.event (stream created first iff RequestHeaders; an event for a stream that is gone is dropped - `except KeyError`,
@@ -109,6 +113,17 @@ def _isinst(expr):
 
 def _is_none(e) -> bool:
     return isinstance(e, ast.Constant) and e.value is None
+
+
+def _is_empty_seq(e) -> bool:
+    """`[]`, `list()`, `deque()` / `collections.deque()`: a fresh, empty sequence of queued events."""
+    if isinstance(e, ast.List) and not e.elts:
+        return True
+    return isinstance(e, ast.Call) and not e.args and not e.keywords and last_attr(e.func) in ("list", "deque")
+
+
+def _is_qslot(v) -> bool:
+    return isinstance(v, tuple) and len(v) == 3 and v[0] == "qslot"
 
 
 def _stores(node):
@@ -526,23 +541,35 @@ def _anchors(ctx, rel, cls):
     inside a helper of the class it is handed to (`yield from self._pass_on(self._handle_event2(event))`)."""
     fn = ctx.func(rel, f"{cls}._handle_event")
     ev = params_of(fn)[0]
-    single = _single(fn)
     found = []
-    for n in walk_in_order(fn):
-        if not (isinstance(n, ast.Call) and len(n.args) == 1 and not n.keywords and isinstance(n.args[0], ast.Name) and n.args[0].id == ev and not is_self_call(n, fn.name)):
-            continue
-        p = getattr(n, "_parent", None)
-        if isinstance(p, (ast.For, ast.AsyncFor)) and p.iter is n:
-            found.append(n)
-        elif isinstance(p, ast.Assign) and len(p.targets) == 1 and isinstance(p.targets[0], ast.Name) and single.get(p.targets[0].id) is n:
-            if any(isinstance(l, ast.For) and isinstance(l.iter, ast.Name) and l.iter.id == p.targets[0].id for l in ast.walk(fn)):
+
+    def iterated_param(r, i):
+        ps = params_of(r[1]) if r is not None else []
+        return i < len(ps) and len(_bindings(r[1]).get(ps[i], ())) == 1 and any(isinstance(l, ast.For) and isinstance(l.iter, ast.Name) and l.iter.id == ps[i] for l in ast.walk(r[1]))
+
+    def scan(f, evn, seen):
+        # `evn`: the name the event being handled has in ``f`` (its parameter, or the parameter of a private helper it was handed to unchanged)
+        single = _single(f)
+        if f is not fn and len(_bindings(f).get(evn, ())) != 1:
+            return
+        for n in walk_in_order(f):
+            if not (isinstance(n, ast.Call) and len(n.args) == 1 and not n.keywords and isinstance(n.args[0], ast.Name) and n.args[0].id == evn and not is_self_call(n, fn.name)):
+                continue
+            p = getattr(n, "_parent", None)
+            if isinstance(p, (ast.For, ast.AsyncFor)) and p.iter is n:
                 found.append(n)
-        elif isinstance(p, ast.Call) and n in p.args and isinstance(p.func, ast.Attribute) and isinstance(p.func.value, ast.Name) and p.func.value.id == "self":
-            r = ctx.model.method(rel, cls, p.func.attr)
-            ps = params_of(r[1]) if r is not None else []
-            i = p.args.index(n)
-            if i < len(ps) and len(_bindings(r[1]).get(ps[i], ())) == 1 and any(isinstance(l, ast.For) and isinstance(l.iter, ast.Name) and l.iter.id == ps[i] for l in ast.walk(r[1])):
+            elif isinstance(p, ast.Assign) and len(p.targets) == 1 and isinstance(p.targets[0], ast.Name) and single.get(p.targets[0].id) is n:
+                if any(isinstance(l, ast.For) and isinstance(l.iter, ast.Name) and l.iter.id == p.targets[0].id for l in ast.walk(f)):
+                    found.append(n)
+            elif isinstance(p, ast.Call) and n in p.args and isinstance(p.func, ast.Attribute) and isinstance(p.func.value, ast.Name) and p.func.value.id == "self" and iterated_param(ctx.model.method(rel, cls, p.func.attr), p.args.index(n)):
                 found.append(n)
+            elif isinstance(n.func, ast.Attribute) and isinstance(n.func.value, ast.Name) and n.func.value.id == "self" and n.func.attr not in seen:
+                # the event is handed on to a private helper of the class (`yield from self._dispatch(event)`): the loop may live there
+                r = ctx.model.method(rel, cls, n.func.attr)
+                if r is not None and r[0].rel in (H2, H3) and isinstance(r[1], ast.FunctionDef) and params_of(r[1]):
+                    scan(r[1], params_of(r[1])[0], seen | {n.func.attr})
+
+    scan(fn, ev, frozenset({fn.name}))
     ctx.require(len(found) == 1, f"{cls}._handle_event: expected one `for cmd in <inner handler>(event)` loop")
     return fn, ev, found[0]
 
@@ -560,17 +587,32 @@ def _client_spec(ctx, rel, cls, fn, ev, inner, scenario, leaves=None):
                 return FRESH
             if ch == QUEUE and m == "pop":
                 return ("popped",)
+            if ch == QUEUE and m == "setdefault" and len(expr.args) == 2 and not expr.keywords and _is_empty_seq(expr.args[1]):
+                return ("qslot", shown(sp.v(expr.args[0], st)), "made")  # the list of events queued under that key, created when missing
+            if ch == QUEUE and m in ("keys", "items") and not expr.args and not expr.keywords:
+                return ("qkeys",) if m == "keys" else ("qitems",)
             if isinstance(expr.func, ast.Name) and len(expr.args) == 1 and not expr.keywords:
-                if expr.func.id == "iter" and sp.canon(expr.args[0], st) == QUEUE:
+                a0 = expr.args[0]
+                if expr.func.id == "iter" and (sp.canon(a0, st) == QUEUE or sp.v(a0, st) == ("qkeys",)):
                     return ("qiter",)
-                if expr.func.id == "next" and sp.v(expr.args[0], st) == ("qiter",):
-                    return ("qfirst",)
+                if expr.func.id == "iter" and sp.v(a0, st) == ("qitems",):
+                    return ("qiter_items",)
+                if expr.func.id == "next" and sp.v(a0, st) == ("qiter",):
+                    return ("qfirst",)  # the key of the stream that has been waiting longest (dicts keep insertion order)
+                if expr.func.id == "next" and sp.v(a0, st) == ("qiter_items",):
+                    return ("qfirst_item",)
+                if expr.func.id in ("list", "tuple") and (sp.canon(a0, st) == QUEUE or sp.v(a0, st) == ("qkeys",)):
+                    return ("qkeylist",)
         if isinstance(expr, ast.Subscript) and isinstance(expr.ctx, ast.Load):
             ch = sp.canon(expr.value, st)
             if ch == MAPS[0] and sp.v(expr.slice, st) == EVSID:
                 return st.get("our@evsid") if st.has("our@evsid") else LOOK
             if ch == MAPS[1] and sp.v(expr.slice, st) == CMDSID:
                 return THEIRS
+            if ch == QUEUE:
+                return ("qslot", shown(sp.v(expr.slice, st)), "sub")  # the list of events queued under that key (KeyError on a plain dict when missing)
+            if isinstance(expr.slice, ast.Constant) and expr.slice.value == 0 and type(expr.slice.value) is int and sp.v(expr.value, st) == ("qkeylist",):
+                return ("qfirst",)  # list(stream_queue)[0]
         if isinstance(expr, ast.Attribute) and isinstance(expr.ctx, ast.Load):
             c = sp.canon(expr, st)
             if c == f"{ev}.stream_id":
@@ -580,7 +622,11 @@ def _client_spec(ctx, rel, cls, fn, ev, inner, scenario, leaves=None):
         return None
 
     def shown(v):
-        return v if isinstance(v, tuple) and v and v[0] in ("evsid", "cmdsid", "ours", "theirs") else ("?",)
+        return v if isinstance(v, tuple) and v and v[0] in ("evsid", "cmdsid", "ours", "theirs", "qfirst") else ("?",)
+
+    def first_events(v):
+        # the events of the stream taken out of the queue: what pop() returned, or the entry of the first key read before it is deleted
+        return v == ("popped",) or v == ("qslot", ("qfirst",), "sub")
 
     def label(node, st, sp):
         out = []
@@ -593,8 +639,14 @@ def _client_spec(ctx, rel, cls, fn, ev, inner, scenario, leaves=None):
                     out.append(("q_pop", "first" if len(n.args) == 1 and not n.keywords and sp.v(n.args[0], st) == ("qfirst",) else norm(n)))
                 elif ch == QUEUE and m in ("popitem", "clear"):
                     out.append(("q_pop", m))
-                elif m == "append" and isinstance(n.func.value, ast.Subscript) and sp.canon(n.func.value.value, st) == QUEUE:
-                    out.append(("q_append", shown(sp.v(n.func.value.slice, st)), (sp.canon(n.args[0], st) or norm(n.args[0])) if len(n.args) == 1 else "?"))
+                elif m in ("append", "extend", "insert", "appendleft", "__iadd__") and _is_qslot(sp.v(n.func.value, st)):
+                    slot = sp.v(n.func.value, st)
+                    if m == "append" and len(n.args) == 1 and not n.keywords:
+                        out.append(("q_append", slot[1], sp.canon(n.args[0], st) or norm(n.args[0]), slot[2]))
+                    else:
+                        out.append(("q_append", ("?",), norm(n)))
+                elif ch == QUEUE and m == "setdefault" and len(n.args) == 2 and not n.keywords and _is_empty_seq(n.args[1]):
+                    out.append(("q_slot", shown(sp.v(n.args[0], st))))  # an empty slot: nothing is queued by this alone
                 elif ch == QUEUE and m in ("setdefault", "update", "__setitem__"):
                     out.append(("q_append", ("?",), norm(n)))
                 elif ch in MAPS and m in ("pop", "clear", "update", "setdefault", "popitem", "__setitem__", "__delitem__"):
@@ -604,7 +656,7 @@ def _client_spec(ctx, rel, cls, fn, ev, inner, scenario, leaves=None):
                     p = n
                     while p is not None and not isinstance(p, (ast.For, ast.FunctionDef)):
                         p = getattr(p, "_parent", None)
-                    ok = isinstance(p, ast.For) and isinstance(a0, ast.Name) and isinstance(p.target, ast.Name) and p.target.id == a0.id and len(n.args) == 1 and sp.v(p.iter, st) == ("popped",)
+                    ok = isinstance(p, ast.For) and isinstance(a0, ast.Name) and isinstance(p.target, ast.Name) and p.target.id == a0.id and len(n.args) == 1 and first_events(sp.v(p.iter, st))
                     out.append(("replay", "loopvar" if ok else norm(n)))
             elif isinstance(n, ast.Yield):
                 if n.value is not None and sp.canon(n.value, st) == cmdvar:
@@ -619,6 +671,10 @@ def _client_spec(ctx, rel, cls, fn, ev, inner, scenario, leaves=None):
                     out.append(("map_our" if ch == MAPS[0] else "map_their", shown(sp.v(t.slice, st)), shown(sp.v(v, st))))
                 elif ch in MAPS:
                     out.append(("map_other", norm(node)))
+                elif ch == QUEUE and isinstance(node, ast.AugAssign) and isinstance(node.op, ast.Add) and isinstance(node.value, (ast.List, ast.Tuple)) and len(node.value.elts) == 1 and not isinstance(node.value.elts[0], ast.Starred):
+                    out.append(("q_append", shown(sp.v(t.slice, st)), sp.canon(node.value.elts[0], st) or norm(node.value.elts[0]), "sub"))  # `stream_queue[k] += [event]`
+                elif ch == QUEUE and plain and _is_empty_seq(v):
+                    out.append(("q_slot", shown(sp.v(t.slice, st))))  # `stream_queue[k] = []`
                 elif ch == QUEUE:
                     out.append(("q_append", ("?",), norm(node)))
             elif isinstance(t, ast.Attribute):
@@ -635,7 +691,7 @@ def _client_spec(ctx, rel, cls, fn, ev, inner, scenario, leaves=None):
                 if ch in MAPS:
                     out.append(("map_other", norm(node)))
                 elif ch == QUEUE:
-                    out.append(("q_pop", norm(node)))
+                    out.append(("q_pop", "first" if isinstance(t, ast.Subscript) and sp.v(t.slice, st) == ("qfirst",) else norm(node)))
         return out
 
     def try_lookup(stmt, st, sp):
@@ -662,6 +718,8 @@ def _client_spec(ctx, rel, cls, fn, ev, inner, scenario, leaves=None):
             if st.has("our@evsid"):
                 return ("MAPPED_NOW", isinstance(cp[2], ast.In))  # asked again after the entry was written on this path
             return ("NEW", isinstance(cp[2], ast.NotIn))
+        if cp and sp.canon(cp[1], st) == QUEUE and sp.v(cp[0], st) == EVSID:
+            return ("QHAS", isinstance(cp[2], ast.In))  # is this event's stream waiting already?
         return None
 
     def raises(stmt, st, sp):
@@ -689,6 +747,11 @@ def _client_spec(ctx, rel, cls, fn, ev, inner, scenario, leaves=None):
 
         def bind(self, target, value_expr, st, depth, value=None):
             p = getattr(target, "_parent", None)
+            if isinstance(target, (ast.Tuple, ast.List)) and len(target.elts) == 2 and all(isinstance(e, ast.Name) for e in target.elts) and value_expr is not None \
+                    and (value if value is not None else self.value(value_expr, st, depth)) == ("qfirst_item",):
+                # key, events = next(iter(self.stream_queue.items()))
+                st = DSpec.bind(self, target.elts[0], None, st, depth, value=("qfirst",))
+                return DSpec.bind(self, target.elts[1], None, st, depth, value=("qslot", ("qfirst",), "sub"))
             if isinstance(target, ast.Name) and value_expr is None and isinstance(p, (ast.For, ast.AsyncFor)) and p.target is target and self.value(p.iter, st, depth) == ("innercall",):
                 # the next command of the protocol handler: what was known about the previous one's id no longer applies
                 if st.has("cmdsid"):
@@ -705,7 +768,7 @@ def _client_spec(ctx, rel, cls, fn, ev, inner, scenario, leaves=None):
         def loop_event(self, node, entered, st):
             if isinstance(node.target, ast.Name) and self.v(node.iter, st) == ("innercall",):
                 return ("inner", norm(inner.func), entered)
-            if self.v(node.iter, st) == ("popped",):
+            if first_events(self.v(node.iter, st)):
                 return ("qloop", entered)
             return None
 
@@ -724,6 +787,27 @@ def _client_spec(ctx, rel, cls, fn, ev, inner, scenario, leaves=None):
 
     resolver = _self_helper_resolver(ctx, rel, cls, skip_names=(fn.name,), skip_nodes=(inner,))
     return CS(label=label, atom=atom, scenario={**scenario, "MAPPED_NOW": True}, val=val, raises=raises, resolver=resolver, unroll=2, max_depth=3)
+
+
+def _queue_kind(ctx, rel, cls):
+    """What `self.stream_queue` is created as in the class: 'auto' (a defaultdict whose missing entries are created as empty sequences),
+    'plain' (`{}` / `dict()`: reading a missing key raises), else 'other' (nothing is concluded)."""
+    kinds = set()
+    for _, c in ctx.model.mro(rel, cls):
+        for fn in c.body:
+            if not isinstance(fn, ast.FunctionDef):
+                continue
+            for n in ast.walk(fn):
+                if isinstance(n, (ast.Assign, ast.AnnAssign)) and n.value is not None:
+                    for t, v in _stores(n):
+                        if attr_chain(t) == QUEUE and v is not None:
+                            if isinstance(v, ast.Call) and last_attr(v.func) == "defaultdict" and len(v.args) == 1 and not v.keywords and last_attr(v.args[0]) in ("list", "deque"):
+                                kinds.add("auto")
+                            elif (isinstance(v, ast.Dict) and not v.keys) or (isinstance(v, ast.Call) and isinstance(v.func, ast.Name) and v.func.id == "dict" and not v.args and not v.keywords):
+                                kinds.add("plain")
+                            else:
+                                kinds.add("other")
+    return next(iter(kinds)) if len(kinds) == 1 else "other"
 
 
 def _client(ctx, rel, cls, gated):
@@ -758,6 +842,7 @@ def _client(ctx, rel, cls, gated):
     ctx.check(not others, "R05.1", w, f"{cls}: writers of our_stream_id/their_stream_id", f"the stream-id maps are also written in {sorted(others)} - the converse-pair invariant is no longer established at one place",
               desc=f"{cls}: stream-id maps written only in _handle_event" + (f" (and its private helpers {sorted(q for _, q in mine if not q.endswith('._handle_event'))})" if len(mine) > 1 else ""))
 
+    queue_kind = _queue_kind(ctx, rel, cls) if gated else None
     for H, traces in results:
         ctx.paths += len(traces)
         ctx.require(traces, f"{cls}._handle_event: no path")
@@ -766,7 +851,7 @@ def _client(ctx, rel, cls, gated):
         for tr, how, _ in traces:
             if how != "return":
                 continue
-            toks = proj(tr, ("map_our", "map_their", "map_other", "rewrite_in", "rewrite_out", "inner", "yield", "q_append", "q_pop", "qloop", "replay", "cond"))
+            toks = proj(tr, ("map_our", "map_their", "map_other", "rewrite_in", "rewrite_out", "inner", "yield", "q_append", "q_slot", "q_pop", "qloop", "replay", "cond"))
             eff = [t for t in toks if t[0] != "cond"]
             if any(t[0] == "map_other" for t in eff):
                 prob.setdefault("map writes", ("the stream-id maps are modified other than by the converse pair of item assignments", eff))
@@ -776,9 +861,19 @@ def _client(ctx, rel, cls, gated):
                 n_gated += 1
                 if not gated:
                     prob.setdefault("gate", ("unexpected stream queue", eff))
-                elif not (H and len(eff) == 1 and eff[0] == ("q_append", EVSID, ev)) or ("cond", "NEW", True) not in toks:
-                    prob.setdefault("gate", ("a gated event must be appended to stream_queue[its original stream id] and nothing else may happen "
-                                             "(no id allocation, no rewrite, no send)", eff))
+                else:
+                    # creating the (empty) list of the event's own stream before appending to it is part of the append
+                    slots = [i for i, t in enumerate(eff) if t == ("q_slot", EVSID)]
+                    rest = [t for t in eff if t != ("q_slot", EVSID)]
+                    if not (H and len(rest) == 1 and rest[0][:3] == ("q_append", EVSID, ev) and all(i < eff.index(rest[0]) for i in slots)) or ("cond", "NEW", True) not in toks:
+                        prob.setdefault("gate", ("a gated event must be appended to stream_queue[its original stream id] and nothing else may happen "
+                                                 "(no id allocation, no rewrite, no send)", eff))
+                    elif rest[0][3:] == ("sub",) and not slots and queue_kind == "plain" and ("cond", "QHAS", True) not in toks[: toks.index(rest[0])]:
+                        prob.setdefault("gate", ("the event is appended to stream_queue[its stream id], but stream_queue is a plain dict and the first event of a stream finds no list there "
+                                                 "(KeyError - the stream is lost)", eff))
+                continue
+            if any(t[0] == "q_slot" for t in eff):
+                prob.setdefault("gate", ("an empty entry is left in stream_queue for a stream that is not waiting for capacity (it would be resumed in place of a waiting stream)", eff))
                 continue
             if not inner_at:
                 prob.setdefault("dispatch", ("the event never reaches the protocol handler", eff))
@@ -1416,8 +1511,10 @@ def _stream_identity(ctx):
 
     rewrites = 0
     for rel, cls in ((H2, "Http2Client"), (H3, "Http3Client")):
-        fn = ctx.func(rel, f"{cls}._handle_event")
-        rewrites += sum(1 for n in ast.walk(fn) if isinstance(n, ast.Assign) and any(attr_chain(t).endswith(".stream_id") and not attr_chain(t).startswith("self.") for t in n.targets))
+        ctx.func(rel, f"{cls}._handle_event")
+        for fn in ctx.model.cls(rel, cls).body:  # (_handle_event or a private helper it was split into)
+            if isinstance(fn, ast.FunctionDef):
+                rewrites += sum(1 for n in ast.walk(fn) if isinstance(n, ast.Assign) and any(attr_chain(t).endswith(".stream_id") and not attr_chain(t).startswith("self.") for t in n.targets))
     ctx.require(rewrites >= 2, "Http2Client/Http3Client no longer rewrite event.stream_id in place (R05.5 premise changed)")
     cls = ctx.model.cls(I, "HttpStream")
     methods = [d for d in cls.body if isinstance(d, ast.FunctionDef)]
@@ -1507,6 +1604,10 @@ MUTANTS = [
     Mutant("resume-only-on-http-events", H2, "        if can_resume_queue:\n", "        if can_resume_queue and isinstance(event, HttpEvent):\n", "R05.2"),
     Mutant("gate-also-for-mapped-streams", H2, "            if ours is None:\n                no_free_streams", "            if True:\n                no_free_streams", "R05.2"),
     Mutant("resume-lifo", H2, "events = self.stream_queue.pop(next(iter(self.stream_queue)))", "events = self.stream_queue.popitem()[1]", "R05.2"),
+    Mutant("resume-last-key", H2, "events = self.stream_queue.pop(next(iter(self.stream_queue)))", "events = self.stream_queue.pop(list(self.stream_queue)[-1])", "R05.2"),
+    Mutant("queue-plain-dict-keyerror", H2, "        self.stream_queue = collections.defaultdict(list)\n", "        self.stream_queue = {}\n", "R05.2"),
+    Mutant("gated-event-under-shared-key", H2, "                    self.stream_queue[event.stream_id].append(event)\n", "                    self.stream_queue.setdefault(0, []).append(event)\n", "R05.2"),
+    Mutant("empty-queue-entry-for-every-new-stream", H2, "                no_free_streams = self.h2_conn.open_outbound_streams >= (", "                self.stream_queue.setdefault(event.stream_id, [])\n                no_free_streams = self.h2_conn.open_outbound_streams >= (", "R05.2"),
     Mutant("resume-without-capacity", H2, "can_resume_queue = self.stream_queue and self.h2_conn.open_outbound_streams < (", "can_resume_queue = self.stream_queue and self.h2_conn.open_outbound_streams <= (", "R05.2"),
     Mutant("gated-event-also-sent", H2, "                    self.stream_queue[event.stream_id].append(event)\n                    return\n", "                    self.stream_queue[event.stream_id].append(event)\n", "R05.2"),
     Mutant("provisional-cleared-on-any-settings-ack", H2, "        elif isinstance(event, h2.events.RequestReceived):\n            yield from self.protocol_error(\n                f\"HTTP/2 protocol error: received request from server\"\n            )\n            return True\n",
